@@ -88,16 +88,14 @@ func connArgShape(p *core.Prog, v ssa.Value, recv ssa.Value) string {
 			s += "unwrapAll("
 			x = call.Call.Args[0]
 			defer func() {}()
-			if _, f, isF := core.FieldOf(x); isF {
-				if base, _, _ := core.FieldOf(x); base == recv {
-					return s + "recv." + f + "))"
-				}
+			if base, f, isF := core.FieldOf(x); isF && isRecv(base, call.Parent()) {
+				return s + "recv." + f + "))"
 			}
 			return s + "other))"
 		}
 		return s + "call:" + ci.Full() + ")"
 	}
-	if base, f, isF := core.FieldOf(x); isF && base == recv {
+	if base, f, isF := core.FieldOf(x); isF && isRecv(base, ta.Parent()) {
 		return s + "recv." + f + ")"
 	}
 	return s + "other)"
@@ -316,6 +314,24 @@ func c17Type(c *core.Ctx, wt *types.Named) {
 	}
 }
 
+// isRecv: v is the receiver of the method fn belongs to (directly, through a
+// spill cell, or captured by a function literal nested in that method).
+func isRecv(v ssa.Value, fn *ssa.Function) bool {
+	root := fn
+	for root.Parent() != nil {
+		root = root.Parent()
+	}
+	if len(root.Params) == 0 || root.Signature.Recv() == nil {
+		return false
+	}
+	return core.AllOrigins(core.ResolveFree(v), func(o ssa.Value) bool {
+		if fv, ok := o.(*ssa.FreeVar); ok {
+			return isRecv(core.ResolveFree(fv), fn)
+		}
+		return o == ssa.Value(root.Params[0])
+	})
+}
+
 func interceptorCalls(fn *ssa.Function, intType string) []*ssa.Call {
 	return core.CallsIn(fn, func(call *ssa.Call, ci core.CallInfo) bool {
 		return !call.Call.IsInvoke() && core.TypeStr(call.Call.Value.Type()) == intType
@@ -330,7 +346,7 @@ func wrappedCalls(fn *ssa.Function, name string) []*ssa.Call {
 			return false
 		}
 		base, _, ok := core.FieldOf(call.Call.Value)
-		return ok && base == fn.Params[0]
+		return ok && isRecv(base, fn)
 	})
 }
 
@@ -371,13 +387,16 @@ func c17Dispatch(c *core.Ctx, tn, name string, fn *ssa.Function, intType string)
 		nilSucc, nonNilSucc = 1, 0
 	}
 	params := fn.Params[1:] // without receiver
+	isParam := func(a ssa.Value, p *ssa.Parameter) bool {
+		return a == ssa.Value(p) || core.AllOrigins(a, func(o ssa.Value) bool { return o == ssa.Value(p) })
+	}
 	// nil edge: the wrapped channel's same-named method
 	for _, wc := range wrappedCalls(fn, name) {
 		dom := core.EdgeDominates(iff.Block(), nilSucc, wc)
 		okArgs := len(wc.Call.Args) == len(params)
 		if okArgs {
 			for i, a := range wc.Call.Args {
-				if a != ssa.Value(params[i]) {
+				if !isParam(a, params[i]) {
 					okArgs = false
 				}
 			}
@@ -414,7 +433,7 @@ func c17Dispatch(c *core.Ctx, tn, name string, fn *ssa.Function, intType string)
 		okArgs := len(rest) == len(params)
 		if okArgs {
 			for i, a := range rest {
-				if a != ssa.Value(params[i]) {
+				if !isParam(a, params[i]) {
 					okArgs = false
 				}
 			}
@@ -423,8 +442,19 @@ func c17Dispatch(c *core.Ctx, tn, name string, fn *ssa.Function, intType string)
 		c.Check(returnsCall(fn, ic), key+":interceptor-result", ic.Pos(), "interceptor's results returned unchanged", "interceptor's results are not returned unchanged")
 		// continuation
 		target, recv := boundTarget(c.P, cont)
-		if target == nil || recv != ssa.Value(fn.Params[0]) {
-			c.Fail(key+":continuation", ic.Pos(), "continuation handed to the interceptor is not a method of this wrapper bound to the receiver")
+		skipRecv := 1
+		if target == nil {
+			// a function literal created in this entry point
+			for _, o := range core.Origins(cont) {
+				if mc, ok := o.(*ssa.MakeClosure); ok {
+					target = mc.Fn.(*ssa.Function)
+					skipRecv = 0
+					recv = fn.Params[0]
+				}
+			}
+		}
+		if target == nil || !isRecv(recv, fn) {
+			c.Fail(key+":continuation", ic.Pos(), "continuation handed to the interceptor is neither a method of this wrapper bound to the receiver nor a function literal of this entry point")
 			continue
 		}
 		wcs := wrappedCalls(target, name)
@@ -436,7 +466,7 @@ func c17Dispatch(c *core.Ctx, tn, name string, fn *ssa.Function, intType string)
 		if okc {
 			// own params without receiver and without the *ClientConn param
 			var own []ssa.Value
-			for _, pp := range target.Params[1:] {
+			for _, pp := range target.Params[skipRecv:] {
 				if core.TypeStr(pp.Type()) == "*"+grpcPkg+".ClientConn" {
 					continue
 				}
@@ -461,7 +491,7 @@ func c17Dispatch(c *core.Ctx, tn, name string, fn *ssa.Function, intType string)
 func sameField(a, b ssa.Value) bool {
 	ba, fa, oka := core.FieldOf(a)
 	bb, fb, okb := core.FieldOf(b)
-	return oka && okb && ba == bb && fa == fb
+	return oka && okb && fa == fb && (ba == bb || core.SameVal(ba, bb))
 }
 
 // returnsCall: some return of fn returns exactly the results of call, and no
